@@ -19,6 +19,7 @@ type Cond struct {
 	Lang string `json:"lang,omitempty"` // "" = expr, "xpath"
 	Obj  string `json:"obj,omitempty"`  // boolean data object (expr: getDataObject)
 	Raw  string `json:"raw,omitempty"`  // literal expression text (XML-escaped); the model cannot evaluate it
+	Informal bool `json:"informal,omitempty"` // written without xsi:type: an informal expression, which the engine cannot execute and takes as true
 }
 
 type Flow struct {
@@ -307,7 +308,11 @@ func (g *Graph) emitBody(b *strings.Builder, ind string) {
 		} else {
 			lang, text := condText(f.Cond)
 			fmt.Fprintf(b, "%s<bpmn:sequenceFlow id=\"%s\" sourceRef=\"%s\" targetRef=\"%s\">\n", ind, f.ID, f.From, f.To)
-			fmt.Fprintf(b, "%s  <bpmn:conditionExpression xsi:type=\"bpmn:tFormalExpression\" language=\"%s\">%s</bpmn:conditionExpression>\n", ind, lang, text)
+			if f.Cond.Informal {
+				fmt.Fprintf(b, "%s  <bpmn:conditionExpression>%s</bpmn:conditionExpression>\n", ind, text)
+			} else {
+				fmt.Fprintf(b, "%s  <bpmn:conditionExpression xsi:type=\"bpmn:tFormalExpression\" language=\"%s\">%s</bpmn:conditionExpression>\n", ind, lang, text)
+			}
 			fmt.Fprintf(b, "%s</bpmn:sequenceFlow>\n", ind)
 		}
 	}
